@@ -53,7 +53,9 @@ func c11macro(name string, nparams int, extra ...gen.Node) *gen.NMacro {
 func c11args(n, salt int) []gen.Expr {
 	args := make([]gen.Expr, n)
 	for i := range args {
-		switch (i + salt) % 3 {
+		switch (i + salt) % 4 {
+		case 3: // an argument with a recorded side effect: evaluated exactly once, in order, even when surplus
+			args[i] = &gen.ECall{Fn: "fn", Args: []gen.Expr{str("arg" + strconv.Itoa(i))}}
 		case 0:
 			args[i] = str("A" + strconv.Itoa(i))
 		case 1:
